@@ -245,7 +245,23 @@ def run_c12(pid, spec, res, st, tier, seed, helpers):
         rc, out, err = run_cli(['-f', blank]); runs += 1
         if rc != 0 or out != b'^$\n':
             fails.append(({'tcs': [[]], 'f': '', 'id': -1}, {'kind': 'cli-file', 'detail': 'blank-only file: exit %d stdout %r' % (rc, out[:100])}))
-        # from_file of the library behaves like from() on the lines: covered by the `file` channel (main.rs reads the file itself)
+        # RegExpBuilder::from_file behaves like from() on the file's lines (model: Print.lines, validated below)
+        paths = [os.path.join(tmpd, f) for f in sorted(os.listdir(tmpd)) if f.startswith('in_')][:60] + [blank]
+        rc_, out_, err_ = sh([runner.GREXV, 'fromfile'], inp=("\n".join(paths) + "\n").encode())
+        states = [json.loads(l) for l in out_.splitlines() if l.startswith('{')]
+        contents = [list(open(p_, 'rb').read().decode('utf-8')) for p_ in paths]
+        rc2_, out2_, err2_ = sh([runner.DRIVER, '--lines'], inp=("\n".join(",".join(str(ord(ch)) for ch in t) for t in contents) + "\n").encode())
+        mlines = out2_.splitlines()
+        if rc_ != 0 or rc2_ != 0 or len(states) != len(paths) or len(mlines) != len(paths):
+            res['broken'].append('from_file probe could not run: %s %s' % (err_[-200:], err2_[-200:]))
+        else:
+            for p_, st_, ml in zip(paths, states, mlines):
+                want = 'tcs=' + ';'.join('[' + w_ + ']' for w_ in ml.split(';')) if ml != '-' else 'tcs='
+                got = st_.get('state', '')
+                got_tcs = got[got.index('tcs='):] if 'tcs=' in got else None
+                if got_tcs != want:
+                    fails.append(({'tcs': [], 'f': '', 'id': -1}, {'kind': 'from-file', 'detail': 'RegExpBuilder::from_file(%s) holds %r, the lines of the file are %r' % (os.path.basename(p_), (got_tcs or st_.get('panic'))[:150], want[:150])}))
+            res['stats']['from_file_probes'] = len(paths)
     finally:
         shutil.rmtree(tmpd, ignore_errors=True)
     validate_setter_translation(res)
